@@ -9,6 +9,7 @@ import (
 	_ "github.com/akrennmair/updog/driver"
 	"github.com/akrennmair/updog/internal/queryparser"
 	updogv1 "github.com/akrennmair/updog/proto/updog/v1"
+	"github.com/akrennmair/updog/zzverif/flk"
 	"github.com/akrennmair/updog/zzverif/ix"
 	"github.com/akrennmair/updog/zzverif/model"
 	"github.com/akrennmair/updog/zzverif/rt"
@@ -18,7 +19,7 @@ import (
 // C11 — placeholder binding is exact, prepared statements are reusable: enumeration of query texts x
 // argument lists x execution sequences, directly on ReplacePlaceholders and through database/sql.
 
-var c11Values = []string{"1", "2", "q\"\n", "é", "7"}
+var c11Values = []string{"1", "2", "q\"\n", "é", "7", "12", "", "caf\xe9"}
 
 func c11Rows() []model.Row {
 	var rows []model.Row
@@ -312,12 +313,14 @@ func anyLists(vals []any, minLen, maxLen int) [][]any {
 }
 
 type c11Args struct {
-	Mode  string `json:"mode"` // lists | sequences
-	Depth int    `json:"depth"`
-	Seq   int    `json:"seq"`
+	Mode    string `json:"mode"` // lists | sequences
+	Depth   int    `json:"depth"`
+	Seq     int    `json:"seq"`
+	Collide bool   `json:"collide"`
 }
 
 func c11Worker(ctx *rt.Ctx, job *rt.Job) []*rt.Violation {
+	flk.Sequential(true) // single goroutine: a lock of updog or bbolt that cannot be taken now never will be (reported as a hang)
 	var a c11Args
 	job.Decode(&a)
 	w := newC11World(ctx)
@@ -373,6 +376,10 @@ func c11Worker(ctx *rt.Ctx, job *rt.Job) []*rt.Violation {
 		}
 	case "sequences":
 		vals3 := []any{"1", "2", "q\"\n"}
+		if a.Collide {
+			// argument lists whose concatenations coincide ("1"+"2" == "12"+"") and a value that is not valid UTF-8
+			vals3 = []any{"1", "12", "2", "", "caf\xe9"}
+		}
 		for ti, t := range trees {
 			if ti%job.NShards != job.Shard {
 				continue
@@ -436,11 +443,16 @@ func c11Raw(w *c11World, ctx *rt.Ctx) *rt.Violation {
 		{"a = $09 & ^ b = $0010 ; g", "a = " + q(9) + " & ^ b = " + q(10) + " ; g", 10},
 		{"a = $007 | a = $10", "a = " + q(7) + " | a = " + q(10), 10},
 		{"a = $08", "a = " + q(8), 8},
+		{"a = $4294967297", "!error", 1},
+		{"a = $2147483648 | b = $1", "!error", 2},
 	}
 	for _, r := range raws {
 		ctx.Cov.Add("evaluations", 1)
 		ctx.Cov.Add("distinct_nontrivial", 1)
 		want := func() string {
+			if r.lit == "!error" {
+				return "!error"
+			}
 			rows, err := w.db.Query(r.lit)
 			if err != nil {
 				return "error"
@@ -473,6 +485,9 @@ func c11Raw(w *c11World, ctx *rt.Ctx) *rt.Violation {
 				s, _ := scanAll(rows)
 				return s
 			}()
+			if want == "!error" && strings.HasPrefix(got, "error") {
+				continue
+			}
 			if got != want {
 				c := c11Case{Kind: "raw", Args: [][]any{args}, Raw: r.text}
 				return rt.NewViolation("C11", "bind", c.sig(), c, "%s path: %q with its arguments returned %s; the literal query %q returns %s", path, r.text, got, r.lit, want)
@@ -493,9 +508,11 @@ func c11Run(ctx *rt.Ctx) []*rt.Violation {
 	if ctx.Thorough() {
 		add(c11Args{Mode: "lists", Depth: 2}, 32)
 		add(c11Args{Mode: "sequences", Depth: 1, Seq: 3}, 16)
+		add(c11Args{Mode: "sequences", Depth: 1, Seq: 3, Collide: true}, 16)
 	} else {
 		add(c11Args{Mode: "lists", Depth: 1}, 8)
 		add(c11Args{Mode: "sequences", Depth: 1, Seq: 2}, 8)
+		add(c11Args{Mode: "sequences", Depth: 1, Seq: 2, Collide: true}, 8)
 	}
 	outs := rt.RunJobs(ctx, jobs, rt.SpawnOpt{})
 	vs := rt.Collect(ctx, outs, nil)
